@@ -859,7 +859,7 @@ class Name:
         """
 
         if self.is_subdomain(origin):
-            return Name(self[: -len(origin)])
+            return Name(self[: len(self) - len(origin)])
         else:
             return self
 
